@@ -152,4 +152,12 @@ update the models cannot exhibit and the race detector does not see. -/
 theorem c06_fields_written_under_lock :
     FV.Locks.writesGuarded [1] FV.Generated.Locks.unguardedUnexpected = true := by decide +kernel
 
+/-- **Locks held across calls are released by defer** (regenerated from lib/go on every check): no function calls
+anything while it holds a mutex that only a hand-written `Unlock` releases, except the hand-classified callees that
+cannot panic (`manual:` lines of `known/locks_unguarded_expected.txt`). The models release a mutex on EVERY exit of
+a critical section, a panic included — the servers recover panics of user-supplied code and keep serving, so a
+hand-released mutex would stay locked and every later request behind it would go unanswered. -/
+theorem c06_locks_released_by_defer :
+    FV.Locks.releasedByDefer [1] FV.Generated.Locks.manualUnexpected = true := by decide +kernel
+
 end FV.C06
